@@ -81,7 +81,8 @@ class T:
 
 
 def lengths(exact, maxv):
-    return sorted({0, 1, 2, 3, max(exact - 1, 0), exact + 1, exact + 4, maxv - 1, maxv} - {exact})
+    # ... and values that equal the exact one after truncation to 8 bits, plus the 8-bit boundary itself
+    return sorted(({0, 1, 2, 3, max(exact - 1, 0), exact + 1, exact + 4, maxv - 1, maxv, exact + 256, exact + 512, 255, 256, 257} - {exact}) & set(range(maxv + 1)))
 
 
 def can_templates(udp, fd):
@@ -156,12 +157,12 @@ LISTENERS = {
 }
 
 
-def vss_big():
-    """interop-mode VSS message with a 1400-character path"""
+def vss_big(n=1400, value=1.5):
+    """interop-mode VSS message with an n-character path"""
     h = hdr('Vss')
-    name = (b'Vehicle.Cabin.Seat.Row1.Pos1.' * 60)[:1400]
+    name = (b'Vehicle.Cabin.Seat.Row1.Pos1.' * 60)[:n]
     path = struct.pack('>H', len(name)) + name
-    val = struct.pack('>f', 1.5)
+    val = struct.pack('>f', value)
     total = 12 + len(path) + len(val)
     pad = (4 - total % 4) % 4
     setf(h, 'Vss', 'acf_msg_length', (total + pad) // 4)
@@ -169,6 +170,56 @@ def vss_big():
     setf(h, 'Vss', 'addr_mode', 0)
     setf(h, 'Vss', 'vss_datatype', 9)
     return h + path + val + bytes(pad)
+
+
+def size_sweeps(name, L):
+    """well-formed datagrams over every value of the size parameter a listener's buffers depend on (path length, text
+    length, NAL length, payload length of the last CAN message of a datagram filled to exactly 1500 bytes):
+    (sid, args, presets, events, mode label, description)"""
+    out = []
+    for mlabel, args, presets, mparam in L['modes']:
+        udp = mparam[0] if isinstance(mparam, tuple) else mparam
+        items = []
+        if name == 'acf-vss-listener':
+            for cf in ('tscf', 'ntscf'):
+                room = 1500 - (4 if udp else 0) - (24 if cf == 'tscf' else 12) - 12 - 2 - 4 - 3
+                for n in range(0, room + 1):
+                    for value in ((1.5,) if n % 16 else (1.5, 3.4028234e38, -1e-38)):
+                        items.append(('%s path length %d value %g' % (cf, n, value), control(cf, vss_big(n, value), udp)))
+        elif name == 'hello-world-listener':
+            for cf in ('tscf', 'ntscf'):
+                room = 1500 - (4 if udp else 0) - (24 if cf == 'tscf' else 12) - 8 - 4
+                for n in range(0, room + 1, 1):
+                    items.append(('%s text length %d' % (cf, n), control(cf, gpc_msg((b'Hello 1722 ' * 140)[:n]), udp)))
+        elif name == 'cvf-listener':
+            for n in list(range(0, 1473)):
+                items.append(('NAL length %d' % n, cvf_pdu(n)))
+        elif name == 'acf-can-listener':
+            fd = mparam[1]
+            for cf in ('tscf', 'ntscf'):
+                hl = (4 if udp else 0) + (24 if cf == 'tscf' else 12)
+                for ln in range(0, (64 if fd else 8) + 1):
+                    last = can_msg(0x321, bytes(range(1, ln + 1)), fdf=fd)
+                    # the datagram ends with this message; once as the only message, once filled to exactly 1500 bytes
+                    items.append(('%s single message payload %d' % (cf, ln), control(cf, last, udp), [(0x321, bytes(range(1, ln + 1)))]))
+                    room = 1500 - hl - len(last)
+                    fill, want = [], []
+                    k = 0
+                    while room >= 16:
+                        fl = min((64 if fd else 8), (room - 16) // 4 * 4)
+                        if room - 16 - fl and room - 16 - fl < 16:
+                            fl = max(0, fl - 16)
+                        m = can_msg(0x100 + k, bytes((k + i) & 0xFF for i in range(fl)), fdf=fd)
+                        fill.append(m); want.append((0x100 + k, bytes((k + i) & 0xFF for i in range(fl)))); room -= len(m); k += 1
+                    if room == 0:
+                        items.append(('%s 1500-byte datagram, last message payload %d' % (cf, ln), control(cf, b''.join(fill) + last, udp), want + [(0x321, bytes(range(1, ln + 1)))]))
+        for it in items:
+            desc, d = it[0], it[1]
+            if len(d) > 1500:
+                continue
+            sid = '%s|%s|sweep|%s' % (name, mlabel, desc.replace(' ', '_'))
+            out.append((sid, args, presets, ['D' + d.hex()], mlabel, desc, it[2] if len(it) > 2 else None))
+    return out
 
 
 def stepping(name, mparam, t):
@@ -517,6 +568,31 @@ def run(prop, tier):
                         e['count'] += 1
                         e['modes'].add(mlabel); e['devs'].add('long-run')
         scripts_long = {x[0]: [x[1], x[2], x[3]] for x in lr}
+        sw = size_sweeps(name, L)
+        if sw:
+            for variant, ex in (('pattern', exe),) + ((('none', exe_plain),) if exe_plain else ()):
+                rs_ = e4.run_batch(ex, [x[:4] for x in sw])
+                nseq += len(sw)
+                for sid, args_, presets_, evs, mlabel, desc, want in sw:
+                    st, eff, rep = rs_[sid]
+                    cls = classify2(st, eff, rep)
+                    if cls:
+                        key = '%s: well-formed datagram of a particular size: %s' % (name, cls)
+                        e = res.viol.setdefault(('C18', key), {'count': 0, 'case': sid, 'detail': 'first: mode %s, %s (%s build): %s' % (mlabel, desc, variant, rep[:300] or st), 'tag': '', 'modes': set(), 'devs': set()})
+                        e['count'] += 1
+                        e['modes'].add(mlabel); e['devs'].add('size-sweep')
+                    elif want is not None:
+                        got = []
+                        for tok in eff.split(';'):
+                            if tok.startswith('CAN '):
+                                raw = bytes.fromhex(tok[4:])
+                                got.append((int.from_bytes(raw[:4], 'little') & 0x1FFFFFFF, raw[8:8 + raw[4]]))
+                        if got != want:
+                            key = '%s: well-formed datagram of a particular size: CAN frames written differ from the messages carried' % name
+                            e = res.viol.setdefault(('C18', key), {'count': 0, 'case': sid, 'detail': 'first: mode %s, %s: %d messages carried, %d frames written' % (mlabel, desc, len(want), len(got)), 'tag': '', 'modes': set(), 'devs': set()})
+                            e['count'] += 1
+                            e['modes'].add(mlabel); e['devs'].add('size-sweep')
+            scripts_long.update({x[0]: [x[1], x[2], x[3]] for x in sw})
         if name in POLLING:
             # conversations: every sequence up to the depth over datagram variants x poll answers (timer first / datagram first / both ready)
             cv = conversations(name, L, convdepth + (1 if name == 'aaf-listener' and tier != 'quick' else 0))
